@@ -275,6 +275,20 @@ def hand_target_shadow(x: fp.Real, y: fp.Real, xs: list[fp.Real]):
         for x in xs:
             acc = acc + x
         return acc + x * y''',
+    'hand_carried_pair': '''@fp.fpy
+def hand_carried_pair(x: fp.Real, y: fp.Real):
+    with fp.IEEEContext(4, 8):
+        i = fp.round(0)
+        acc = fp.round(1)
+        while i < x:
+            i = i + fp.round(1)
+            acc = acc * i + y
+        a = fp.round(0)
+        b = fp.round(1)
+        for k in range(3):
+            a = a + fp.round(1)
+            b = b * a + x
+        return (acc, i, a, b)''',
     'hand_whole': '''@fp.fpy
 def hand_whole(x: fp.Real, y: fp.Real):
     with fp.IEEEContext(4, 8):
@@ -365,6 +379,12 @@ CORES = {
     'while_parallel': ('(FPCore (n) (while (< i n) ([i 0 (+ i 1)] [s 0 (+ s i)]) s))', [(4.0,), (0.0,), (1.0,)]),
     'while_sequential': ('(FPCore (n) (while* (< i n) ([i 0 (+ i 1)] [s 0 (+ s i)]) s))', [(4.0,), (0.0,), (1.0,)]),
     'for_parallel': ('(FPCore (x) (for ([i 4]) ([a x b] [b 1 (+ a b)]) (- a b)))', [(1.0,), (3.0,)]),
+    # an <init> that names a variable an earlier binding of the same loop re-binds: `for` / `while` / `let` read the outer one
+    'for_parallel_init': ('(FPCore (a b) (for ([i 2]) ([a b (+ a b)] [b a b]) (- a b)))', [(3.0, 5.0), (1.0, 0.5), (4.0, 4.0)]),
+    'for_sequential_init': ('(FPCore (a b) (for* ([i 2]) ([a b (+ a b)] [b a b]) (- a b)))', [(3.0, 5.0), (1.0, 0.5), (4.0, 4.0)]),
+    'for_parallel_init0': ('(FPCore (x) (for ([i 0]) ([x 1 (+ x 1)] [y x (+ y x)]) y))', [(10.0,), (1.0,)]),
+    'while_parallel_init': ('(FPCore (a b) (while (< i 2) ([i 0 (+ i 1)] [a b (+ a b)] [b a b]) (- a b)))', [(3.0, 5.0), (1.0, 0.5)]),
+    'while_sequential_init': ('(FPCore (a b) (while* (< i 2) ([i 0 (+ i 1)] [a b (+ a b)] [b a b]) (- a b)))', [(3.0, 5.0), (1.0, 0.5)]),
     'for_sequential': ('(FPCore (x) (for* ([i 4]) ([a x b] [b 1 (+ a b)]) (- a b)))', [(1.0,), (3.0,)]),
     'tensor_star': ('(FPCore (x) (ref (tensor* ([i 3]) ([a x (* a 2)] [b a (+ b a)]) (+ a b)) 2))', [(1.0,), (0.5,)]),
     'tensor_2d': ('(FPCore (x) (ref (tensor ([i 2] [j 3]) (+ (* i 3) (* j x))) 1 2))', [(1.0,), (0.5,)]),
